@@ -370,7 +370,7 @@ def run_check(prop: str, tier: str, harness_filter=None, workers=None) -> int:
         hs = [h for h in hs if h.name in harness_filter]
     # wall-time budget per harness (the thorough tier is sized by total wall time): a harness that does not
     # finish inside it is reported with exhaustive_within_bounds=false, never as a pass of the larger bound
-    cap = float(os.environ.get("VERIF_MAX_SECONDS", 0) or (600 if tier == "thorough" else 0))
+    cap = float(os.environ.get("VERIF_MAX_SECONDS", 0) or (300 if tier == "thorough" else 0))
     for h in hs:
         if cap:
             h.max_seconds = min(h.max_seconds, cap)
